@@ -5,15 +5,18 @@
 (* its map or into another), then cells of either side are mutated in place.      *)
 EXTENDS AliasOps, Json
 
-CONSTANTS MaxMut      \* number of in-place mutations explored after the copy
+CONSTANTS MaxMut,     \* number of in-place mutations explored after the copy
+          Full        \* TRUE: every combination of optional blocks; FALSE: the extreme ones for the big classes
 
 \* every combination of the optional blocks that changes what there is to copy
 Valid(o) == /\ ("multi" \in o => "disp" \in o)
 OptSets == [
   Side      |-> {o \in SUBSET {"disp", "multi", "strata"} : Valid(o)},
-  Solid     |-> {o \cup f : o \in {x \in SUBSET {"disp", "multi"} : Valid(x)}, f \in {{}, {"vis", "group", "hidden", "cordon"}}},
-  Entity    |-> {o \cup f : o \in {x \in SUBSET {"fix", "outs", "brush", "disp", "multi"} : Valid(x) /\ ("disp" \in x => "brush" \in x)},
-                            f \in {{}, {"vis", "group", "hidden"}}},
+  Solid     |-> IF Full THEN {o \cup f : o \in {x \in SUBSET {"disp", "multi"} : Valid(x)}, f \in {{}, {"vis", "group", "hidden", "cordon"}}}
+                ELSE {{}, {"disp", "multi", "vis", "group", "hidden", "cordon"}},
+  Entity    |-> IF Full THEN {o \cup f : o \in {x \in SUBSET {"fix", "outs", "brush", "disp", "multi"} : Valid(x) /\ ("disp" \in x => "brush" \in x)},
+                                         f \in {{}, {"vis", "group", "hidden"}}}
+                ELSE {{}, {"fix", "outs"}, {"fix", "outs", "brush", "disp", "multi", "vis", "group", "hidden"}},
   Output    |-> SUBSET {"inst", "comma"},
   VisGroup  |-> SUBSET {"kids"},
   Keyvalues |-> {{"leaf"}, {}, {"nested"}, {"root"}, {"root", "nested"}}
